@@ -123,7 +123,7 @@ def run(ctx: Ctx) -> None:
     wd = workdir("c16s")
     try:
         rp = c04.Replayer(ctx, (-1, 0), "C16")
-        res = run_tlc("MC_HugrStore", c04.cfg(["a"], ["none"], "OffsetsTwo", 3 if quick else 5, 0, [1], False, 4 if quick else 5, "CountsAll", emit="state", laws=False,
+        res = run_tlc("MC_HugrStore", c04.cfg(["a"], ["none"], "OffsetsTwo", 3 if quick else 5, 0, [1], False, 4 if quick else 5, "CountsAll" if quick else "CountsTwo", emit="state", laws=False,   # (thorough with CountsAll: 4.2e6 histories, 4 GB of output, 50 min; CountsTwo: 1.6e6)
                                                 view=False),    # no VIEW: every add/delete history (the free list is hidden implementation state)
                       wd, workers=1, heap="4g", line_sink=lambda ln: rp.feed_path(ln) if isinstance(ln, dict) and "hist" in ln else None)
         tlc_must_hold(ctx, "S2C add/delete histories: handle counts", res, "HugrStore model (handles)")
